@@ -264,8 +264,8 @@ Proof.
     + destruct (in_q id (doomed s)); intros _; cbn; lia.
 Qed.
 
-(** The head of the queue is never left fitting -- for the repaired guard always, for the
-    guard as it is when all queued weights are positive. *)
+(** The head of the queue is never left fitting -- for the current guard ([>=]) always, for the
+    old guard ([>]) when all queued weights are positive. *)
 Lemma step_head_ok fx s o :
   bounded s -> op_bounded o -> wf s -> res (step fx s o) <> RPanic ->
   fx = true \/ Forall wpos (waiters s) ->
@@ -469,7 +469,8 @@ Proof.
   congruence.
 Qed.
 
-(** F4: cancel of the front waiter with size = cur leaves a weight-0 waiter at the head. *)
+(** F4 (old guard [>], repaired in /repo 61b3423d): cancel of the front waiter with size = cur
+    leaves a weight-0 waiter at the head. *)
 Definition f4_history : list op := [OAcquire 1; OAcquire 1; OAcquire 0; OCancel 1%N].
 
 Lemma head_blocked_refuted :
@@ -485,9 +486,9 @@ Qed.
 Definition doomed_history : list op := [OAcquire 2; OResize 5].
 
 Lemma doomed_blocked_refuted :
-  exists h, in_range false (init 1) h /\ clean false (init 1) h /\
-            waiters (run false (init 1) h) = [] /\ cur (run false (init 1) h) = 0 /\
-            ~ doomed_ok (run false (init 1) h).
+  exists h, in_range code_guard (init 1) h /\ clean code_guard (init 1) h /\
+            waiters (run code_guard (init 1) h) = [] /\ cur (run code_guard (init 1) h) = 0 /\
+            ~ doomed_ok (run code_guard (init 1) h).
 Proof.
   exists doomed_history. split; [| split; [| split; [| split]]].
   - apply good_b_sound. vm_compute. reflexivity.
@@ -499,8 +500,8 @@ Qed.
 
 (** Why [clean] is needed: a Release that panics has already lowered s.cur and skips notifyWaiters. *)
 Lemma head_blocked_needs_clean :
-  exists h, in_range false (init 1) h /\ acquire_weights (fun n => 0 < n) h /\
-            ~ head_ok (run false (init 1) h).
+  exists h, in_range code_guard (init 1) h /\ acquire_weights (fun n => 0 < n) h /\
+            ~ head_ok (run code_guard (init 1) h).
 Proof.
   exists [OAcquire 1; OAcquire 1; ORelease 2]. split; [| split].
   - cbn. unfold bounded, L; cbn. repeat split; lia.
@@ -510,11 +511,11 @@ Qed.
 
 (** Why [bounded] is needed: with s.cur = MaxInt64 and a negative size the subtraction wraps. *)
 Lemma no_overadmit_needs_bounded :
-  exists h, clean false (init (-2)) h /\ ~ Forall admit_ok (events false (init (-2)) h).
+  exists h, clean code_guard (init (-2)) h /\ ~ Forall admit_ok (events code_guard (init (-2)) h).
 Proof.
   exists [OForce 9223372036854775807; OTry 5]. split.
   - cbn. repeat split; discriminate.
-  - intros H. change (events false (init (-2)) [OForce 9223372036854775807; OTry 5])
+  - intros H. change (events code_guard (init (-2)) [OForce 9223372036854775807; OTry 5])
       with [EAdmit None 5 9223372036854775807 (-2)] in H.
     inversion H as [|? ? A _]; subst. unfold admit_ok in A. lia.
 Qed.
